@@ -142,9 +142,9 @@ func (e *c10Env) judgeShot(name, input string, s c10Shot, res c10ShotResult, all
 		e.x.r.Violate(rep.Violation{Kind: "oracle", Check: "C10.no-hang", Signature: "C10.hang:" + name, Input: input, Impl: "handler did not return", PropertyFails: true})
 		return class
 	}
-	if res.alloc > c10AllocBound(len(s.body)) {
+	if res.alloc > c10AllocBoundAt(name, len(s.body)) {
 		e.x.r.Violate(rep.Violation{Kind: "oracle", Check: "C10.alloc-bound", Signature: "C10.alloc:" + name, Input: input,
-			Impl: fmt.Sprintf("handler allocated %d bytes for a %d-byte request (bound %d)", res.alloc, len(s.body), c10AllocBound(len(s.body))), PropertyFails: true})
+			Impl: fmt.Sprintf("handler allocated %d bytes for a %d-byte request (bound %d)", res.alloc, len(s.body), c10AllocBoundAt(name, len(s.body))), PropertyFails: true})
 	}
 	ok := false
 	for _, a := range allowed {
